@@ -308,6 +308,59 @@ def run(prog, check):
     check.saw(xf_)
     check.ob('C18.R3', '%s::income-exclusion-is-per-sector-object' % xf_.key, xok_, xf_.where, xwhy_,
              "two economies in one model, the household of one coded like the government of the other")
+    # the identity of a currency is equality of the code: a containment test on a currency string (`a in zone.Currency`) puts 'KR'
+    # into the zone of 'KRW'; an ordering comparison depends on the spelling
+    n_cur = 0
+    for f_ in prog.all_functions():
+        for n_ in ast.walk(f_.node):
+            if not (isinstance(n_, ast.Compare) and len(n_.ops) == 1):
+                continue
+            l_, r_, op_ = n_.left, n_.comparators[0], n_.ops[0]
+            is_cur = [isinstance(x_, ast.Attribute) and x_.attr == 'Currency' for x_ in (l_, r_)]
+            if not any(is_cur):
+                continue
+            if isinstance(op_, (ast.Eq, ast.NotEq, ast.Is, ast.IsNot)):
+                okc = True
+            elif isinstance(op_, (ast.In, ast.NotIn)):
+                okc = not is_cur[1]          # membership in a collection of codes is fine; `in <a currency string>` is a substring test
+            else:
+                okc = False
+            n_cur += 1
+            check.saw(f_)
+            check.ob('C18.R3', '%s::currency-identity-is-equality(%s)' % (f_.key, unparse(n_)), okc, '%s:%d' % (f_.module.rel, n_.lineno),
+                     'currencies are compared for equality' if okc else
+                     '`%s` is not an equality test between currency codes: an economy whose code is part of (or sorts before) another '
+                     'economy\'s code is put into that economy\'s currency zone' % unparse(n_),
+                     "two economies with currencies 'KRW' and 'KR' in one model")
+    # a book builder's economy has a currency of its own: the object it creates must not fall back on the model's default currency
+    for f_ in prog.all_functions():
+        if '/gl_book/' not in f_.module.rel.replace('\\', '/'):
+            continue
+        # the economy a builder object stands for: what its constructor stores as self.Country (regions a federal model adds to that
+        # economy on purpose share its currency and are not meant here)
+        own_ = [a_.value for a_ in ast.walk(f_.node) if isinstance(a_, ast.Assign) and isinstance(a_.value, ast.Call) and any(
+            isinstance(t_, ast.Attribute) and t_.attr == 'Country' and isinstance(t_.value, ast.Name) and t_.value.id == 'self' for t_ in a_.targets)]
+        for c_ in own_:
+            cn_ = call_name(c_)
+            ci_ = prog.classes.get(cn_) if cn_ else None
+            if ci_ is None or not any(b_.name == 'Country' for b_ in ci_.mro):
+                continue
+            passes_currency = any(k_.arg == 'currency' for k_ in c_.keywords) or len(c_.args) >= 4
+            falls_back = False
+            for b_ in ci_.mro:
+                ini_ = b_.methods.get('__init__')
+                if ini_ is not None and any(isinstance(x_, ast.Attribute) and x_.attr == 'DefaultCurrency' and isinstance(x_.ctx, ast.Load)
+                                            for x_ in ast.walk(ini_.node)):
+                    falls_back = True
+                if ini_ is not None:
+                    break
+            okb = passes_currency or not falls_back
+            check.saw(f_)
+            check.ob('C18.R3', '%s::builder-economy-has-own-currency(%s)' % (f_.key, cn_), okb, '%s:%d' % (f_.module.rel, c_.lineno),
+                     'the economy a builder creates carries its own currency' if okb else
+                     'the builder creates a %s without a currency: it takes the default currency of the model it is embedded into, so two '
+                     'embedded book economies share one currency zone (markets and taxes then reach across them)' % cn_,
+                     "SIM('AA') and SIM('BB') built into one Model")
     check.floor('C18.R3', 8)
     check.floor('C18.R4', 2)
     check.floor('C18.R5', 1)
